@@ -52,7 +52,9 @@ class Run:
     def nontrivial(self, key):
         self.distinct.add(key if isinstance(key, str) else h(key))
     def sample(self, obj, force=False):
-        if len(self.samples) < self.MAX_SAMPLES or force:
+        if force:
+            self.samples.insert(0, obj)
+        elif len(self.samples) < self.MAX_SAMPLES:
             self.samples.append(obj)
     def ev(self, name, n=1):
         self.events[name] += n
